@@ -204,6 +204,48 @@ class DslApp:
         return it
 
 
+class MultiConnApp:
+    """one DslApp per connection (selected by the X-Conn request header): behaviours and call indices are per connection"""
+
+    def __init__(self, behaviours, hook=None):
+        self.behaviours, self.hook = behaviours, hook
+        self.apps = {}
+
+    def sub(self, key):
+        if key not in self.apps:
+            self.apps[key] = DslApp(self.behaviours, hook=self.hook)
+        return self.apps[key]
+
+    def __call__(self, environ, start_response):
+        return self.sub(environ.get("HTTP_X_CONN", "0"))(environ, start_response)
+
+    @property
+    def calls(self):
+        out = []
+        for k in sorted(self.apps):
+            out += [dict(c, conn=k) for c in self.apps[k].calls]
+        return out
+
+    @property
+    def log(self):
+        out = []
+        for k in sorted(self.apps):
+            out += [(k,) + tuple(e) for e in self.apps[k].log]
+        return out
+
+    @property
+    def closes(self):
+        return {(k, i): n for k in self.apps for i, n in self.apps[k].closes.items()}
+
+    @property
+    def faults_hit(self):
+        return [(k, i) for k in self.apps for i in self.apps[k].faults_hit]
+
+    @property
+    def files(self):
+        return {(k, i): f for k in self.apps for i, f in self.apps[k].files.items()}
+
+
 # ---------------------------------------------------------------- strategies
 STATUSES = ["200 OK", "200 OK", "200 OK", "201 Created", "204 No Content", "304 Not Modified", "404 Not Found", "500 Oops",
             "100 Continue", "101 Switching", "299 X", "200"]
